@@ -167,13 +167,6 @@ received from the network); `psOf d` is the part-set id determined by the decisi
 This part of the model is tied to the code only through its pieces (`toVoteList` and the vote set
 are run by the C05 / C04 harnesses); `processBlock` itself is not executed. -/
 
-/-- the acceptance decision of `processBlock` after `toVoteList` succeeded:
-    `adds` = (validator index, vote) for each item. -/
-def processBlockAccepts (s : C04.VS) (adds : List (Nat × C04.Vote)) (psOf : Nat → Nat) (blockPs : Nat) : Bool :=
-  match C04.decision (C04.addAll s adds) with
-  | C04.Dec.decided d => psOf d == blockPs
-  | _ => false
-
 theorem addAll_eq_run (s : C04.VS) (adds : List (Nat × C04.Vote)) :
     C04.addAll s adds = C04.run s (adds.map (fun a => C04.Op.add a.1 a.2)) := by
   induction adds generalizing s with
@@ -202,6 +195,42 @@ theorem processBlock_accepts_only_quorum {n : Nat} {s : C04.VS} (h : C04.Reachab
   | decided d =>
     simp only [hd, beq_iff_eq] at hacc
     exact ⟨d, hacc, (C04.decision_iff hr d).1 hd⟩
+
+/-- The same for the whole modelled `processBlock` (including the `toVoteList` stage): acceptance
+    implies every item is a validator's and a +2/3 quorum of *slots* (= distinct validators) holds
+    the decision with the block's part-set id. Repeated items of one validator occupy one slot. -/
+theorem processBlock_accept_quorum {Item : Type} (signerOf : Item → Option Nat) (voteOf : Item → C04.Vote)
+    {n : Nat} {s : C04.VS} (h : C04.Reachable n s) (items : List Item) (psOf : Nat → Nat) (blockPs : Nat)
+    (hacc : processBlock signerOf voteOf s items psOf blockPs = PB.accept) :
+    (∀ it ∈ items, ∃ i, signerOf it = some i) ∧
+    ∃ d, psOf d = blockPs ∧
+      3 * C04.countSlots (C04.addAll s
+        (items.filterMap (fun it => (signerOf it).map (fun i => (i, voteOf it))))).slots d > 2 * n := by
+  unfold processBlock at hacc
+  by_cases hany : items.any (fun it => (signerOf it).isNone) = true
+  · simp [hany] at hacc
+  · simp only [hany, Bool.false_eq_true, if_false] at hacc
+    constructor
+    · intro it hit
+      cases hs : signerOf it with
+      | some i => exact ⟨i, rfl⟩
+      | none =>
+        exfalso; apply hany
+        exact List.any_eq_true.2 ⟨it, hit, by simp [hs]⟩
+    · apply processBlock_accepts_only_quorum h
+      unfold processBlockAccepts
+      cases hd : C04.decision (C04.addAll s
+          (items.filterMap (fun it => (signerOf it).map (fun i => (i, voteOf it))))) with
+      | no => simp [hd] at hacc
+      | panic => simp [hd] at hacc
+      | decided d =>
+        simp only [hd] at hacc ⊢
+        by_cases hp : (psOf d == blockPs) = true
+        · exact hp
+        · simp [hp] at hacc
+
+example : processBlock (fun (k : Nat × Int) => if k.1 < 4 then some k.1 else none)
+    (fun k => ⟨5, 0, 1, 1, k.2⟩) (C04.new 4) [(1, 100), (1, 101), (1, 102)] id 1 = PB.rejectNoQuorum := by decide
 
 example : processBlockAccepts (C04.new 4)
     [(0, ⟨5, 0, 1, 7, 100⟩), (1, ⟨5, 0, 1, 7, 101⟩), (3, ⟨5, 0, 1, 7, 99⟩)] (fun d => d + 1) 8 = true := by decide
